@@ -31,6 +31,7 @@ vars == <<kind, head, blocks, req, pc, series, names, values>>
 
 (* values the .cfg files cannot write (tuples): substituted with `X <- Name` *)
 MC_Alts == { <<"x", "e">>, <<"x", "">> }
+MC_AltOne == { <<"x", "">> }
 MC_AltsMore == { <<"x", "e">>, <<"x", "">>, <<"y">>, <<"">> }
 MC_OneRange == { <<0, W>> }
 MC_Ranges == { <<0, 2 * W>>,                               \* everything
